@@ -77,6 +77,7 @@ var libSigs = map[string]libSig{
 	"strings.Contains":  {[]string{"Str", "Str"}, "Bool"},
 	"strings.Index":     {[]string{"Str", "Str"}, "Int"},
 	"strings.IndexAny":  {[]string{"Str", "Str"}, "Int"},
+	"strings.TrimLeft":  {[]string{"Str", "Str"}, "Str"},
 	"strings.Split":     {[]string{"Str", "Str"}, "L_Str"},
 	"strings.SplitN":    {[]string{"Str", "Str", "Int"}, "L_Str"},
 	"strings.Fields":    {[]string{"Str"}, "L_Str"},
@@ -172,6 +173,14 @@ var libAxioms = map[string]libAx{
 	}},
 	"strings.Index": {nil, []string{
 		"(assert (forall ((s Str) (p Str)) (! (or (= (L_strings_Index s p) (- 1)) (and (<= 0 (L_strings_Index s p)) (<= (+ (L_strings_Index s p) (str_len p)) (str_len s)))) :pattern ((L_strings_Index s p)))))",
+	}},
+	// TrimLeft(s, cutset) = s[k:] where k is the first position whose byte is not in the cutset (single-byte cutsets are
+	// characterised exactly; for longer cutsets only the shape is known)
+	"strings.TrimLeft": {nil, []string{
+		"(declare-fun trimleft_k (Str Str) Int)",
+		"(assert (forall ((s Str) (p Str)) (! (and (<= 0 (trimleft_k s p)) (<= (trimleft_k s p) (str_len s)) (= (L_strings_TrimLeft s p) (str_sub s (trimleft_k s p) (str_len s)))) :pattern ((L_strings_TrimLeft s p)))))",
+		"(assert (forall ((s Str) (p Str)) (! (=> (= (str_len p) 1) (=> (< (trimleft_k s p) (str_len s)) (not (= (str_at s (trimleft_k s p)) (str_at p 0))))) :pattern ((L_strings_TrimLeft s p)))))",
+		"(assert (forall ((s Str) (p Str) (i Int)) (! (=> (and (= (str_len p) 1) (<= 0 i) (< i (trimleft_k s p))) (= (str_at s i) (str_at p 0))) :pattern ((L_strings_TrimLeft s p) (str_at s i)))))",
 	}},
 	"strings.IndexAny": {nil, []string{
 		"(assert (forall ((s Str) (p Str)) (! (and (<= (- 1) (L_strings_IndexAny s p)) (< (L_strings_IndexAny s p) (ite (= (str_len s) 0) 0 (str_len s)))) :pattern ((L_strings_IndexAny s p)))))",
